@@ -432,8 +432,88 @@ func ruleR44(c *Ctx) *RuleResult {
 		}
 		nfn++
 		var hits []string
+		// loop variables that only ever hold nil: every value handed to them is the nil constant or the variable itself
+		nilPhi := map[string]bool{}
+		{
+			in := map[string][]string{}
+			for _, g := range gc.GCs {
+				if g.Exit.Op != "goto" {
+					continue
+				}
+				for j, a := range g.Exit.Args {
+					k := "φ:" + g.Exit.Leaf + "." + itoa(j)
+					in[k] = append(in[k], a.String())
+				}
+			}
+			for k, vs := range in {
+				all, some := true, false
+				for _, v := range vs {
+					switch v {
+					case "#:nil":
+						some = true
+					case k:
+					default:
+						all = false
+					}
+				}
+				if all && some {
+					nilPhi[k] = true
+				}
+			}
+		}
+		// a loop entered with the nil constant for a variable that every path from the loop head reads through, untested
+		{
+			nilEntry := map[string]bool{}
+			for _, g := range gc.GCs {
+				if g.Exit.Op != "goto" || itoa(g.From) == g.Exit.Leaf {
+					continue
+				}
+				for j, a := range g.Exit.Args {
+					if a.String() == "#:nil" {
+						nilEntry["φ:"+g.Exit.Leaf+"."+itoa(j)] = true
+					}
+				}
+			}
+			for ph := range nilEntry {
+				var k int
+				fmt.Sscanf(ph, "φ:%d.", &k)
+				npaths, nderef := 0, 0
+				for _, g := range gc.GCs {
+					if g.From != k {
+						continue
+					}
+					npaths++
+					tested, deref := false, false
+					see := func(t *Term) bool {
+						if (t.Op == "fa" || t.Op == "ia") && len(t.Args) >= 1 && t.Args[0].String() == ph {
+							deref = true
+						}
+						return false
+					}
+					for _, a := range g.Guards {
+						if (a.Op == "==" || a.Op == "!=") && len(a.Args) == 2 && ((a.Args[0].String() == "#:nil" && a.Args[1].String() == ph) || (a.Args[1].String() == "#:nil" && a.Args[0].String() == ph)) {
+							tested = true
+						}
+						a.any(see)
+					}
+					for _, ef := range g.Effects {
+						ef.any(see)
+					}
+					g.Exit.any(see)
+					if deref && !tested {
+						nderef++
+					}
+				}
+				if npaths > 0 && nderef == npaths {
+					hits = append(hits, fmt.Sprintf("loop %d is entered with nil for %s, and every path from its head reads or writes through that variable without testing it", k, ph))
+				}
+			}
+		}
 		for _, g := range gc.GCs {
 			check := func(t *Term) bool {
+				if (t.Op == "fa" || t.Op == "ia") && len(t.Args) >= 1 && t.Args[0].Op == "φ" && nilPhi[t.Args[0].String()] {
+					hits = append(hits, fmt.Sprintf("%s is accessed through a variable that only ever holds nil: %s", trunc(noEpoch(t), 60), trunc(guardsString(g), 160)))
+				}
 				if (t.Op == "fa" || t.Op == "ia") && len(t.Args) >= 1 && t.Args[0].String() == "#:nil" {
 					hits = append(hits, fmt.Sprintf("%s is accessed through the nil constant: %s", trunc(noEpoch(t), 60), trunc(guardsString(g), 160)))
 				}
